@@ -588,6 +588,12 @@ impl<T: GuestMemory + ?Sized> Bytes<GuestAddress> for T {
     type E = Error;
 
     fn write(&self, buf: &[u8], addr: GuestAddress) -> Result<usize> {
+        // An empty buffer names no bytes: `Bytes::write` documents `Ok(0)` for it "even if `addr`
+        // is otherwise out of bounds", while `try_access` reports an invalid address.
+        if buf.is_empty() {
+            return Ok(0);
+        }
+
         self.try_access(
             buf.len(),
             addr,
@@ -598,6 +604,11 @@ impl<T: GuestMemory + ?Sized> Bytes<GuestAddress> for T {
     }
 
     fn read(&self, buf: &mut [u8], addr: GuestAddress) -> Result<usize> {
+        // See `write`: an empty buffer always yields `Ok(0)`.
+        if buf.is_empty() {
+            return Ok(0);
+        }
+
         self.try_access(
             buf.len(),
             addr,
